@@ -1,6 +1,242 @@
-"""C20 rules (placeholder: fail-closed until the rules are implemented)."""
-from ..loader import AnalysisError
+"""C20 - configuration round-trips, is project-local, and reaches the selected backend."""
+import ast
+from collections import ChainMap
+
+from ..consteval import CantEval, FuncRef
+from ..index import FuncInfo, dotted, walk_no_nested, loc
+from ..symeval import Obj, PureInterp, Raised, Unsupported, tok
+from .persist import _calls
+
+CONF = "gwf.conf"
+
+
+def _config(ctx, file_data):
+    defaults = ctx.ev.eval_global(CONF, "CONFIG_DEFAULTS")
+    ci = ctx.index.cls(f"{CONF}:FileConfig")
+    return Obj("config", path=tok("CFG"), data=ChainMap(dict(file_data), dict(defaults)), **{"__class__": ci}), defaults
+
+
+def rule_accessors(ctx, r):
+    idx = ctx.index
+    ci = idx.cls(f"{CONF}:FileConfig")
+    interp = PureInterp(ctx)
+    # get: stored values (also falsy ones) come back; default only when absent
+    cfg, defaults = _config(ctx, {"zero": 0, "off": False, "empty": "", "txt": "abc"})
+    get = idx.method(ci, "get")
+    res = {}
+    for k in ("zero", "off", "empty", "txt", "missing"):
+        try:
+            res[k] = interp.call(get, (k, "<not set>"), {}, self_obj=cfg)
+        except (Raised, Unsupported) as exc:
+            res[k] = f"<{exc}>"
+    want = {"zero": 0, "off": False, "empty": "", "txt": "abc", "missing": "<not set>"}
+    bad = {k: res[k] for k in want if res[k] != want[k] or type(res[k]) is not type(want[k])}
+    r.check(not bad, f"{get.module.relpath}::{get.qual}", "get returns the stored value (0, False and '' included), the default only for absent keys",
+            f"FileConfig.get returns {bad} for stored values {{'zero': 0, 'off': False, 'empty': ''}}: a stored falsy value is replaced by the default, so "
+            "`gwf config set KEY 0|no|false` does not round-trip and e.g. `no_color = no` is treated as unset", get.where)
+    # set: coercion chain and first map only
+    seti = idx.method(ci, "__setitem__")
+    coer = {"12": 12, "-5": -5, "0": 0, "yes": True, "true": True, "no": False, "false": False, "abc": "abc", "1.5": "1.5", "": "", "True": "True", "backend.x": "backend.x"}
+    cfg, defaults = _config(ctx, {})
+    got = {}
+    for raw in coer:
+        try:
+            interp.call(seti, ("k", raw), {}, self_obj=cfg)
+            got[raw] = cfg.data.maps[0].get("k", "<not stored in the file map>")
+        except (Raised, Unsupported) as exc:
+            got[raw] = f"<{exc}>"
+    bad = {k: (got[k], coer[k]) for k in coer if got[k] != coer[k] or type(got[k]) is not type(coer[k])}
+    r.check(not bad, f"{seti.module.relpath}::{seti.qual}", "integers and yes/no/true/false are coerced, everything else is kept as text, stored in the file map",
+            f"`gwf config set` stores {bad} (stored, expected)", seti.where)
+    r.check(dict(cfg.data.maps[1]) == dict(defaults), f"{seti.module.relpath}::{seti.qual}::defaults-untouched", "the defaults map is never written",
+            "setting a key modifies the defaults map", seti.where)
+    try:
+        conv = ctx.ev.eval_global(CONF, "CONVERTERS")
+        names = [c.name.rsplit(".", 1)[-1] if isinstance(c, FuncRef) else str(c) for c in conv]
+        r.check(names == ["try_int", "try_true", "try_false", "str"], "src/gwf/conf.py::CONVERTERS", "int, true-words, false-words, str (total) in that order",
+                f"the converter chain is {names}", "src/gwf/conf.py:1")
+    except CantEval:
+        r.info("src/gwf/conf.py::CONVERTERS", "not a plain tuple (the evaluated coercions above decide)")
+    # unset: only that key, harmless for unset/default-only keys
+    deli = idx.method(ci, "__delitem__")
+    cfg, defaults = _config(ctx, {"a": 1, "b": 2})
+    out = {}
+    for k in ("a", "verbose", "nothere"):
+        try:
+            interp.call(deli, (k,), {}, self_obj=cfg)
+            out[k] = "ok"
+        except Raised as exc:
+            out[k] = exc.kind
+        except Unsupported as exc:
+            out[k] = f"<{exc}>"
+    state = dict(cfg.data.maps[0])
+    r.check(out == {"a": "ok", "verbose": "ok", "nothere": "ok"} and state == {"b": 2} and dict(cfg.data.maps[1]) == dict(defaults),
+            f"{deli.module.relpath}::{deli.qual}", "unset removes only that key from the file map; a no-op for unset keys and for keys that only have a default",
+            f"`gwf config unset`: results {out}, file map afterwards {state} (expected {{'b': 2}}, all 'ok'): unsetting a key that is not set in the file "
+            "(e.g. one that only has a default) must be harmless, and other keys must not be disturbed", deli.where)
+    # namespace
+    gn = idx.method(ci, "get_namespace")
+    cfg, _d = _config(ctx, {"backend.slurm.log_mode": "merged", "backend.slurm.accounting_enabled": False, "backend.slurmx.y": 1, "backend.slurm": "zzz",
+                            "backend.local.port": 99, "backendXslurmYz": 3})
+    try:
+        ns = interp.call(gn, ("backend.slurm",), {}, self_obj=cfg)
+    except (Raised, Unsupported) as exc:
+        ns = f"<{exc}>"
+    r.check(ns == {"log_mode": "merged", "accounting_enabled": False}, f"{gn.module.relpath}::{gn.qual}", "exactly the keys below 'backend.slurm.' with the prefix stripped",
+            f"get_namespace('backend.slurm') over keys backend.slurm.log_mode, backend.slurm.accounting_enabled, backend.slurmx.y, backend.slurm, backend.local.port "
+            f"gives {ns}: settings of another backend / malformed keyword names reach the selected backend", gn.where)
+    # dump / load
+    dump = idx.method(ci, "dump")
+    t = ast.unparse(dump.node)
+    r.check("self.data.maps[0]" in t and "json.dump(" in t and "str(self.path)" in t, f"{dump.module.relpath}::{dump.qual}", "dump writes the file map (not the defaults) to self.path",
+            "dump does not write exactly the file-level settings to the configuration file", dump.where)
+    load = idx.method(ci, "load")
+    t = ast.unparse(load.node)
+    r.check("ChainMap(data, CONFIG_DEFAULTS)" in t.replace(" ", "").replace(",", ", ") and "FileNotFoundError" in t and "json.load(" in t, f"{load.module.relpath}::{load.qual}",
+            "load layers the file's settings over CONFIG_DEFAULTS (missing file = no settings)", "load does not layer the file's settings over the defaults", load.where)
+
+
+def rule_cli_commands(ctx, r):
+    idx = ctx.index
+    for name, want in (("get", "click.echo(ctx.config.get(key, '<not set>'))"), ("set", "ctx.config[key] = value"), ("unset", "del ctx.config[key]")):
+        f = idx.func(f"gwf.plugins.config:{name}")
+        t = ast.unparse(f.node)
+        r.check(want in t and (name == "get" or "ctx.config.dump()" in t), f"{f.module.relpath}::{f.qual}", want + ("" if name == "get" else " ; dump()"),
+                f"`gwf config {name}` does not {want}" + ("" if name == "get" else " and save"), f.where)
+
+
+def _option(idx, fn, flag):
+    for d in fn.node.decorator_list:
+        if isinstance(d, ast.Call) and idx.canon(d.func, fn.module) == "click.option":
+            names = [a.value for a in d.args if isinstance(a, ast.Constant) and isinstance(a.value, str)]
+            if any(flag in n for n in names):
+                return d
+    return None
+
+
+def rule_precedence(ctx, r):
+    idx = ctx.index
+    main = idx.func("gwf.cli:main")
+    con = f"{main.module.relpath}::main"
+    # backend
+    opt = _option(idx, main, "--backend")
+    dflt = [k.value for k in opt.keywords if k.arg == "default"] if opt else ["?"]
+    r.check(opt is not None and (not dflt or (isinstance(dflt[0], ast.Constant) and dflt[0].value is None)), con + "::--backend", "flag absent = None",
+            "--backend has a default value: the project configuration can never take effect", main.where)
+    chain_ok = guess_ok = False
+    for n in walk_no_nested(main.node):
+        if isinstance(n, ast.Assign) and dotted(n.targets[0]) == "backend":
+            t = ast.unparse(n.value).replace('"', "'")
+            if t in ("backend or config.get('backend')", "backend if backend is not None else config.get('backend')"):
+                chain_ok = True
+        if isinstance(n, ast.If) and ast.unparse(n.test) == "backend is None" and any("guess_backend()" in ast.unparse(s) for s in n.body):
+            guess_ok = True
+    r.check(chain_ok and guess_ok, con + "::backend-precedence", "backend = flag, else config 'backend', else guessed",
+            "the backend is not chosen as command-line flag, else project configuration, else guess", main.where)
+    used = "backend=backend" in ast.unparse(main.node)
+    r.check(used, con + "::backend-used", "the chosen backend is what the commands get", "the Context does not carry the chosen backend", main.where)
+    # colour
+    opt = _option(idx, main, "--no-color")
+    dflt = [k.value for k in opt.keywords if k.arg == "default"] if opt else []
+    r.check(opt is not None and dflt and isinstance(dflt[0], ast.Constant) and dflt[0].value is None, con + "::--no-color", "tri-state flag: absent = None",
+            "--no-color/--use-color does not default to None: 'flag absent' cannot be told from an explicit --use-color", main.where)
+    tri = None
+    for n in walk_no_nested(main.node):
+        if isinstance(n, ast.If) and "no_color" in ast.unparse(n.test) and any("config" in ast.unparse(s) for s in n.body):
+            tri = n
+            break
+    if tri is None:
+        r.violation(con + "::no_color-precedence", "the colour setting never consults the project configuration", main.where)
+    else:
+        t = ast.unparse(tri.test)
+        r.check(t == "no_color is None", con + "::no_color-precedence", "config/env are consulted only when the flag is absent (is None)",
+                f"the colour flag is tested with `{t}`: an explicit --use-color (False) is treated like an absent flag, so configuration or NO_COLOR override the command line",
+                loc(tri, main.module))
+        inner = ast.unparse(tri)
+        r.check("config.get('no_color') is None" in inner and "config['no_color']" in inner and "NO_COLOR" in inner, con + "::no_color-sources",
+                "flag > config no_color > NO_COLOR environment default", "the colour default chain is not `config no_color, else NO_COLOR`", loc(tri, main.module))
+    # verbosity (D12)
+    opt = _option(idx, main, "--verbose")
+    dflt = [k.value for k in opt.keywords if k.arg == "default"] if opt else []
+    flag_none = opt is not None and (not dflt or (isinstance(dflt[0], ast.Constant) and dflt[0].value is None))
+    reads = [n for f in idx.functions.values() if f.module.name != CONF for n in ast.walk(f.node)
+             if isinstance(n, ast.Constant) and n.value == "verbose" and not isinstance(getattr(n, "_parent", None), ast.keyword)]
+    reads = [n for n in reads if "config" in ast.unparse(getattr(n, "_parent", n))]
+    if flag_none and reads:
+        r.ok(con + "::verbose-precedence", "verbosity = flag, else config 'verbose', else default", main.where)
+    else:
+        r.violation(con + "::verbose-precedence", f"--verbose defaults to {ast.unparse(dflt[0]) if dflt else None} and the configuration key 'verbose' is read at "
+                    f"{len(reads)} site(s): `gwf config set verbose debug` can never take effect (flag > config > default does not hold for verbosity)", main.where)
+    # every default key has a reader
+    defaults = ctx.ev.eval_global(CONF, "CONFIG_DEFAULTS")
+    for key in defaults:
+        if key == "verbose":
+            continue
+        sites = [n for f in idx.functions.values() if f.module.name != CONF for n in ast.walk(f.node) if isinstance(n, ast.Constant) and n.value == key
+                 and "config" in ast.unparse(getattr(n, "_parent", n))]
+        r.check(bool(sites), f"src/gwf/conf.py::CONFIG_DEFAULTS::{key}", f"read at {len(sites)} site(s)", f"the documented setting `{key}` is never read: it can have no effect", "src/gwf/conf.py:1")
+
+
+def rule_backend_namespace(ctx, r):
+    idx = ctx.index
+    cb = idx.func("gwf.backends.base:create_backend")
+    t = ast.unparse(cb.node).replace('"', "'")
+    ok = "config.get_namespace(f'backend.{name}')" in t and "working_dir=working_dir, **backend_args" in t.replace(" ", "").replace(",", ", ").replace("=", "=")
+    ns_ok = any(isinstance(n, ast.Assign) and isinstance(n.value, ast.Call) and isinstance(n.value.func, ast.Attribute) and n.value.func.attr == "get_namespace"
+                and isinstance(n.value.args[0], ast.JoinedStr) and ast.unparse(n.value.args[0]).replace('"', "'") == "f'backend.{name}'" for n in walk_no_nested(cb.node))
+    var = next((n.targets[0].id for n in walk_no_nested(cb.node) if isinstance(n, ast.Assign) and isinstance(n.value, ast.Call) and isinstance(n.value.func, ast.Attribute)
+                and n.value.func.attr == "get_namespace"), None)
+    star = any(isinstance(c, ast.Call) and any(k.arg is None and dotted(k.value) == var for k in c.keywords) and any(k.arg == "working_dir" for k in c.keywords)
+               for c in _calls(cb.node))
+    sel = any(isinstance(n, ast.Subscript) and "discover_backends()" in ast.unparse(n.value) and dotted(n.slice) == "name" for n in ast.walk(cb.node))
+    r.check(ns_ok and star and sel, f"{cb.module.relpath}::{cb.qual}", "backend_cls(working_dir=..., **config.get_namespace(f'backend.{name}')) for the selected backend",
+            "the selected backend is not constructed with exactly its own `backend.<name>.*` settings as keyword arguments", cb.where)
+    # factories: parameters flow to the Ops fields in order
+    for mod, cname, params in (("gwf.backends.slurm", "SlurmOps", ["working_dir", "log_mode", "accounting_enabled"]),
+                               ("gwf.backends.local", "LocalOps", ["working_dir", "host", "port"])):
+        fac = idx.func(f"{mod}:create_backend")
+        ci = idx.cls(f"{mod}:{cname}")
+        fields = [f[0] for f in ci.fields if not (isinstance(f[2], ast.Call) and any(k.arg == "init" and isinstance(k.value, ast.Constant) and k.value.value is False for k in f[2].keywords))]
+        got = fac.positional_params()
+        r.check(got == params, f"{fac.module.relpath}::{fac.qual}::params", f"factory accepts {params}", f"the backend factory accepts {got}, documented settings are {params[1:]}", fac.where)
+        ok = False
+        for c in _calls(fac.node):
+            if isinstance(c.func, ast.Name) and c.func.id == cname:
+                bound = {}
+                for i, a in enumerate(c.args):
+                    if i < len(fields):
+                        bound[fields[i]] = dotted(a)
+                for k in c.keywords:
+                    bound[k.arg] = dotted(k.value) if not isinstance(k.value, ast.Dict) else "{}"
+                ok = all(bound.get(p) == p for p in params)
+                detail = bound
+        r.check(ok, f"{fac.module.relpath}::{fac.qual}::binding", f"each setting is bound to the same-named field of {cname}",
+                f"factory arguments are bound to the wrong fields of {cname}: {detail}", fac.where)
+    # use sites
+    sl = idx.cls("gwf.backends.slurm:SlurmOps")
+    cs = idx.method(sl, "compile_script")
+    r.check("self.log_mode ==" in ast.unparse(cs.node), f"{cs.module.relpath}::{cs.qual}::log_mode", "log_mode selects the log directives", "log_mode is not used by the Slurm script builder", cs.where)
+    gj = idx.method(sl, "get_job_states")
+    r.check("if self.accounting_enabled" in ast.unparse(gj.node), f"{gj.module.relpath}::{gj.qual}::accounting_enabled", "accounting_enabled guards sacct",
+            "accounting_enabled is not used to guard the accounting query", gj.where)
+    lo = idx.cls("gwf.backends.local:LocalOps")
+    cc = None
+    for m in lo.methods.values():
+        for c in _calls(m.node):
+            if isinstance(c.func, ast.Attribute) and c.func.attr == "connect" and [ast.unparse(a) for a in c.args] == ["self.host", "self.port"]:
+                cc = m
+    r.check(cc is not None, f"{lo.module.relpath}::LocalOps::connect", "Client.connect(self.host, self.port)", "the local backend does not connect to the configured host and port", lo.where)
+    conn = idx.func("gwf.backends.local:Client.connect")
+    t = ast.unparse(conn.node)
+    r.check("sock.connect((hostname, port))" in t, f"{conn.module.relpath}::{conn.qual}", "connects to (hostname, port)", "Client.connect ignores its host/port arguments", conn.where)
 
 
 def run(ctx):
-    raise AnalysisError("rules for C20 not implemented yet")
+    r1 = ctx.rule("R1", "get/set/unset/namespace: stored values round-trip with the documented coercion; unset is local and harmless; namespaces are exact", min_instances=7)
+    rule_accessors(ctx, r1)
+    r2 = ctx.rule("R2", "the config sub-commands read, write and save through FileConfig", min_instances=3)
+    rule_cli_commands(ctx, r2)
+    r3 = ctx.rule("R3", "precedence flag > project configuration > default for backend, colour and verbosity; every documented setting is read", min_instances=8)
+    rule_precedence(ctx, r3)
+    r4 = ctx.rule("R4", "the selected backend, and only it, receives its backend.<name>.* settings and uses them", min_instances=8)
+    rule_backend_namespace(ctx, r4)
